@@ -199,6 +199,19 @@ def history_probes(T, N):
     else:
         forged["signed"]["verif-probe"] = 2
     n += _compare(T, forged, "signature entries copied verbatim onto different content")
+    # across functions: verify_root on X (whatever the outcome), X["signed"] edited in place, then verify_signable / verify_delegation on X
+    X = copy.deepcopy(N)
+    RV.outcome(A.verify_root, copy.deepcopy(T), X)
+    X["signed"]["verif-probe"] = {"edited": "in place"}
+    rule = T["signed"].get("delegations", {}).get("root") if isinstance(T["signed"].get("delegations"), dict) else None
+    if isinstance(rule, dict) and RV.threshold_args_ok(X, rule.get("pubkeys"), rule.get("threshold")):
+        exp = RV.signable(X, rule["pubkeys"], rule["threshold"], True)
+        o = RV.outcome(A.verify_signable, X, rule["pubkeys"], rule["threshold"], gpg=True)[0]
+        bad = RV.mismatch(exp, o)
+        if bad:
+            raise Violation("verify_signable on an offer that verify_root had just examined and whose signed part was then edited in place: %s"
+                            % bad, bucket="false accept verify_root (history)" if o == "accept" else "false reject (history)")
+        n += 1
     # trusted root with the same type/version/timestamp but a different root rule
     T2 = copy.deepcopy(T)
     d = T2["signed"].get("delegations")
@@ -272,7 +285,19 @@ def check_config(case):
     return {"nontrivial": len(set(verdicts)) > 1, "labels": labels, "count": count}
 
 
+def _interrupted_sweep_cases():
+    from props import C12
+    return C12._sweep_cases().map(lambda c: dict(c, entry='verify_root', kind=c["kind"] if c["kind"] in ['invalid', 'valid', 'unauthorized'] else 'invalid'))
+
+
+def check_interrupted_sweep(case):
+    from props import C12
+    return C12.check_fault_sweep(case)
+
+
 UNITS = [
+    Unit("interrupted_sweep", check_interrupted_sweep, strategy=_interrupted_sweep_cases, quick=18, thorough=500, shards_quick=3,
+         doc="every line event and every C-level call of one verify_root interrupted once on a fresh envelope, each followed by a normal retry of the same envelope"),
     Unit("config", check_config, strategy=_config_cases, quick=24, thorough=400, shards_quick=8, shrink=False,
          doc="the rule holds in fresh interpreters under drawn configurations and discovered environment variables"),
     Unit("pairs", check_pair, essential_min=0.01, strategy=root_pairs, quick=1500, thorough=60000,
